@@ -53,7 +53,9 @@ def families(rng):
     k = sorted((10.0 ** rng.uniform(-1.6, 0.4, 3)).tolist(), reverse=True)
     while min(k[0] / k[1], k[1] / k[2]) < 2.0:
         k = sorted((10.0 ** rng.uniform(-1.6, 0.4, 3)).tolist(), reverse=True)
-    base = [["k1", k[0]], ["k2", k[1]], ["k3", k[2]], ["c", float(rng.uniform(0.0, 0.3))], ["w", float(rng.uniform(0.05, 0.15))], ["dc", 650.0, {"vary": False}],
+    # rate constants are declared non-negative (optimised as logarithms) in half of the draws, as kinetic models usually do
+    nn = {"non-negative": True} if rng.integers(2) else {}
+    base = [["k1", k[0], dict(nn)], ["k2", k[1], dict(nn)], ["k3", k[2], dict(nn)], ["c", float(rng.uniform(0.0, 0.3))], ["w", float(rng.uniform(0.05, 0.15))], ["dc", 650.0, {"vary": False}],
             ["cd1", float(rng.uniform(0.02, 0.08))], ["cd2", float(rng.uniform(-0.02, 0.02))], ["one", 1.0, {"vary": False}], ["zero", 0.0, {"vary": False}]]
     f, g = float(rng.uniform(15, 60)), float(rng.uniform(0.15, 0.6))
     F = []
@@ -222,6 +224,40 @@ def run_family(fam, rng, rec, log, counters):
     if not drift <= 1e-6:
         rec.violation(f"optimiser-leaves-truth:{name}", ctx, f"started at the generating parameters, ended {drift:.3e} (relative) away after {r0.number_of_function_evaluations} evaluations")
         return False
+    # (2b) the same fit interrupted: the model evaluation fails at the third objective call and optimize() reports what it
+    # has (raise_exception=False) - that report is still the generating parameter set (finite-difference neighbours at most)
+    from glotaran.optimization.optimizer import Optimizer
+
+    orig_obj = Optimizer.objective_function
+    ncall = [0]
+
+    def failing_objective(self_, x):
+        ncall[0] += 1
+        if ncall[0] == 3:
+            raise RuntimeError("vf c14 injected: model evaluation failed")
+        return orig_obj(self_, x)
+
+    Optimizer.objective_function = failing_objective
+    try:
+        import warnings
+
+        with time_limit(120), warnings.catch_warnings():
+            warnings.simplefilter("ignore")
+            ri = optimize(Scheme(model=model, parameters=p, data=data, maximum_number_function_evaluations=25, add_svd=False), verbose=False, raise_exception=False)
+    except (Exception, CaseTimeout) as e:  # noqa
+        ri = None
+        if ncall[0] >= 3 and not isinstance(e, CaseTimeout):
+            rec.violation(f"interrupted-fit-at-truth-raises:{type(e).__name__}", ctx, f"{type(e).__name__}: {str(e)[:200]}")
+            Optimizer.objective_function = orig_obj
+            return False
+    finally:
+        Optimizer.objective_function = orig_obj
+    if ri is not None and ncall[0] >= 3:
+        drift_i = max(abs(ri.optimized_parameters.get(k).value - p.get(k).value) / max(abs(p.get(k).value), 1e-3) for k in free)
+        rec.count("interrupted_stay_runs")
+        if not drift_i <= 1e-6:
+            rec.violation(f"interrupted-fit-leaves-truth:{name}", ctx, f"started at the generating parameters and interrupted at the third evaluation, the reported parameters are {drift_i:.3e} (relative) away")
+            return False
     if not full:
         for d in data:
             est = r0.data[d].clp
